@@ -507,6 +507,14 @@ func c06Inject(r *hx.Run) {
 			}
 		}
 		first, last := rr.Intn(14)-2, rr.Intn(16)-2
+		if i > 0 && rr.Intn(3) == 0 {
+			// the column range of the diagnostic before, on other positions or (sometimes) the same (fix ce2f37c)
+			first, last = ds[i-1].FirstColumn, ds[i-1].LastColumn
+			if rr.Intn(3) == 0 {
+				prs = append(diags.PositionRanges{}, ds[i-1].Pos...)
+				jp = jd[i-1]["prs"].([]map[string]int)
+			}
+		}
 		ds = append(ds, diags.Diagnostic{Message: fmt.Sprintf("MSG%d!", i), Pos: prs, FirstColumn: first, LastColumn: last})
 		jd = append(jd, map[string]any{"prs": jp, "first": first, "last": last})
 	}
@@ -590,6 +598,51 @@ func c06Inject(r *hx.Run) {
 	}
 	op2, _ := json.Marshal(map[string]any{"offs": offs, "diags": jd})
 	r.Op("carets\t"+string(op2), rows)
+	// the property on these diagnostics (what caretRow_ascii proves of the model): a diagnostic whose selected cells
+	// reach into its last line gets carets there, unless an earlier diagnostic points at the very same text
+	if rows != "PANIC" {
+		rowOf := map[string]string{}
+		for _, part := range strings.Split(rows, ";") {
+			if k := strings.Index(part, ":"); k >= 0 {
+				for _, e := range strings.Split(part[k+1:], ",") {
+					if q := strings.Index(e, "="); q >= 0 {
+						rowOf[e[:q]] = e[q+1:]
+					}
+				}
+			}
+		}
+		for i, d := range ds {
+			dl := d.Pos.Len()
+			if dl < 1 {
+				continue
+			}
+			first := max(1, min(d.FirstColumn, dl))
+			last := max(first, min(d.LastColumn, dl))
+			sel := diags.VerifReadRange(first, last, d.Pos)
+			ll := sel.Lines().Last
+			if ll < 1 || ll > len(content) || strings.ToValidUTF8(content[ll-1], "") != content[ll-1] || len(content[ll-1]) != len([]rune(content[ll-1])) {
+				continue
+			}
+			visible := false
+			for _, p := range sel {
+				if p.Line == ll && p.FirstColumn <= len(content[ll-1]) {
+					visible = true
+				}
+			}
+			same := false
+			for j := 0; j < i; j++ {
+				if ds[j].FirstColumn == d.FirstColumn && ds[j].LastColumn == d.LastColumn && fmt.Sprint(ds[j].Pos) == fmt.Sprint(d.Pos) {
+					same = true
+				}
+			}
+			row, ok := rowOf[fmt.Sprint(i)]
+			if visible && !same && ok && !strings.Contains(row, "^") {
+				r.Violate(hx.Violation{Class: "diagnostic-without-carets", Input: map[string]any{"content": content, "diags": jd, "index": i},
+					Observed: map[string]any{"row": row, "rendered": rows}, Expected: "carets under the selected columns of the diagnostic's last line"})
+				return
+			}
+		}
+	}
 }
 
 func runC06(r *hx.Run, replay string) {
